@@ -563,6 +563,15 @@ func c20Concurrent(seed int64, tier string) ([]string, map[string]any) {
 						if hits := bd.Search(dom.SearchEqual(n - 1)); len(hits) != 1 || hits[0] != fmt.Sprintf("big[%d]", n-1) {
 							bad = true
 						}
+						// ... and serialised, through either of the two mapping helpers the package offers
+						enc := dom.DefaultNodeEncoderFn
+						if g%2 == 0 {
+							enc = dom.DefaultNodeMappingFn
+						}
+						var sb bytes.Buffer
+						if err := bd.Serialize(&sb, enc, dom.DefaultJsonEncoder); err != nil || !strings.Contains(sb.String(), fmt.Sprintf("\"s%d\"", n+2)) {
+							bad = true
+						}
 						if bad {
 							mu.Lock()
 							fail = append(fail, fmt.Sprintf("goroutine %d: first concurrent Flatten/Search of a fresh document with lists of %d and %d items does not list every position under its own path", g, n, n+3))
@@ -589,7 +598,7 @@ func c20Concurrent(seed int64, tier string) ([]string, map[string]any) {
 func init() {
 	register(&Prop{
 		ID:   "C20",
-		Rule: "documents with empty containers and empty lists at any depth along 7 construction routes (builder, FromMap, loaded from YAML, merged, cloned, sealed, empty sealed) x one read-only call (Child, Children, Lookup, Flatten, Search, AsMap, Equals, SameAs, Clone; then Serialize and list accessors, then writes into the plain value AsMap() returned, then 8 random edits of a Clone()): the generic representation dump (hook dom.VerifDump: every field, nil-ness/len/cap of maps and slices) must be identical before and after, and the returned value equal to the content-only model; overlay-read: Lookup (incl. unknown layer), LookupAny, Search, Merged (both strategies), Layers, LayerNames, Walk, Serialize, and random edits of Layers() snapshots and their clones leave the overlay's dump unchanged (layers derived from each other, so they share structure at every depth, plus a fixed three-level overlap with lists in lists). Extra: 16 goroutines x random read sequences on one shared document + overlay views, observations equal to single-threaded ones; the same harness is built with -race and must produce no race report; per round a FRESH document with lists longer than any seen before (33 … 300 items) whose first Flatten/Search happen concurrently in 12 goroutines. Non-trivial: document has an unallocated (nil) map or slice. Distinct by Gallina term. The slices returned by Items()/AsSlice() of every list and of its sealed view are overwritten and appended to by two readers. The merged view of an overlay (also of one layer) and the result of {}.Merge(d) are finished by their reader at the top level (add, remove, overwrite scalars). Snapshots edited below their root; LookupAny asked repeatedly.",
+		Rule: "documents with empty containers and empty lists at any depth along 7 construction routes (builder, FromMap, loaded from YAML, merged, cloned, sealed, empty sealed) x one read-only call (Child, Children, Lookup, Flatten, Search, AsMap, Equals, SameAs, Clone; then Serialize and list accessors, then writes into the plain value AsMap() returned, then 8 random edits of a Clone()): the generic representation dump (hook dom.VerifDump: every field, nil-ness/len/cap of maps and slices) must be identical before and after, and the returned value equal to the content-only model; overlay-read: Lookup (incl. unknown layer), LookupAny, Search, Merged (both strategies), Layers, LayerNames, Walk, Serialize, and random edits of Layers() snapshots and their clones leave the overlay's dump unchanged (layers derived from each other, so they share structure at every depth, plus a fixed three-level overlap with lists in lists). Extra: 16 goroutines x random read sequences on one shared document + overlay views, observations equal to single-threaded ones; the same harness is built with -race and must produce no race report; per round a FRESH document with lists longer than any seen before (33 … 300 items) whose first Flatten/Search/Serialize (through DefaultNodeEncoderFn and DefaultNodeMappingFn alike) happen concurrently in 12 goroutines. Non-trivial: document has an unallocated (nil) map or slice. Distinct by Gallina term. The slices returned by Items()/AsSlice() of every list and of its sealed view are overwritten and appended to by two readers. The merged view of an overlay (also of one layer) and the result of {}.Merge(d) are finished by their reader at the top level (add, remove, overwrite scalars). Snapshots edited below their root; LookupAny asked repeatedly.",
 		Gen: func(r *rand.Rand, tier string, idx int) Case {
 			if idx%5 == 4 {
 				return c20Overlay(r)
